@@ -37,6 +37,8 @@ def c01_shards(tier):
     # quick: 2 lines, <=1 deviation, names <=3.  thorough: (2 lines, <=1 deviation, names <=4) and (1 line, <=2 deviations, names <=4)
     variants = [(2, 1, 3)] if quick else [(2, 1, 4), (1, 2, 4)]
     for (tn, t, alpha), (cap, shared), (lines, D, mn) in itertools.product(tables, caps, variants):
+        if cap > 7 and D > 1:
+            continue    # two deviations inside a 16-byte argument buffer: >10^8 states per table, covered at caps 6 and 7
         sh.append(mcx("lines-%s-cap%d-sh%d-l%dd%d" % (tn, cap, shared, lines, D), prop="C01", table=t, cap=cap, shared=shared, name_alpha=alpha, args_alpha="1A",
                       max_name=mn, max_args=(cap + 1) if cap <= 7 else 3, D=D, dev=DEV, lines=lines, crlf=1, blank=1, lower=0,
                       refuse_read=1, refuse_write=1, codes_W="OK,ERROR,NEXT,HOLD", codes_R="OK,DATA_OK,DATA_NEXT,ERROR", codes_U="OK,ERROR,LIST,HOLD",
